@@ -31,7 +31,7 @@ import (
 )
 
 var behaviours = []string{"honest-with-key", "honest-with-key", "honest-without-key", "other-key", "flipped-data", "empty-data", "previous-challenge", "replay-signature", "garbage-reply", "wrong-type-reply", "empty-signature", "wrong-format", "failure", "close", "truncated-signature"}
-var dirStates = []string{"pub", "pub", "bare", "both-same", "both-different", "none", "unparsable", "empty-file", "other-users-key", "right-key-other-name", "other-user-dotted-name", "other-user-dotted-name", "certificate"}
+var dirStates = []string{"pub", "pub", "bare", "both-same", "both-different", "none", "unparsable", "empty-file", "other-users-key", "right-key-other-name", "other-user-dotted-name", "other-user-dotted-name", "certificate", "pub-is-directory", "symlink-to-key", "dangling-symlink", "dangling-symlink-and-bare"}
 
 type runRec struct {
 	Behaviour string `json:"agent_behaviour"`
@@ -81,7 +81,7 @@ func (m *chalMon) add(r *ev.Run, c *ev.Case, d []byte) {
 
 func main() {
 	ev.MainIsolated("C01", "exploration", 40*time.Minute, func(r *ev.Run) {
-		r.Rule("seeded runs of gensign.Run with the real regular handler (built by NewHandler from JSON configuration) over a scripted forwarded agent. Per run: agent behaviour in {honest with the key, honest without it, signs with another key, signs the challenge with one bit flipped / empty data / the previous challenge, replays the previous run's signature, garbage reply, well-formed reply of the wrong type, empty signature blob, wrong format string, truncated signature, failure, closes the connection} x user key type {RSA, ECDSA P-256/384/521, Ed25519, sk-ssh-ed25519@openssh.com} x registered-key directory state {<name>.pub, bare <name>, both (same / different keys), none, unparsable, empty file, another user's key under this name, right key under another name only, an OpenSSH certificate over the user's key (agent holding the certificate identity and/or the issuing key)} x policy {NONS, NSOK, other} x hard-key flag; sequences of 2..6 runs on the same agent (replay / freshness); plus handler lists of 1..4 stub/real handlers with every accept/reject pattern; plus runs while the process entropy source (crypto/rand.Reader) answers in pieces of 1, 7, 32, 63 bytes or fails (the challenge is still 64 fresh bytes, resp. nobody is authenticated). Oracle from the wire log alone: a signer call or an add-identity frame requires that this run's sign request named a registered key and was answered with a signature that the harness itself verifies over exactly the challenge sent, and policy NONS without hard key. distinct_nontrivial = distinct (behaviour, directory state, policy, hard-key, key type, outcome) combinations + distinct handler-list patterns")
+		r.Rule("seeded runs of gensign.Run with the real regular handler (built by NewHandler from JSON configuration) over a scripted forwarded agent. Per run: agent behaviour in {honest with the key, honest without it, signs with another key, signs the challenge with one bit flipped / empty data / the previous challenge, replays the previous run's signature, garbage reply, well-formed reply of the wrong type, empty signature blob, wrong format string, truncated signature, failure, closes the connection} x user key type {RSA, ECDSA P-256/384/521, Ed25519, sk-ssh-ed25519@openssh.com} x registered-key directory state {<name>.pub, bare <name>, both (same / different keys), none, unparsable, empty file, another user's key under this name, right key under another name only, <name>.pub a directory / a symlink to the key / a dangling symlink (with and without a bare <name>), an OpenSSH certificate over the user's key (agent holding the certificate identity and/or the issuing key)} x policy {NONS, NSOK, other} x hard-key flag; sequences of 2..6 runs on the same agent (replay / freshness); plus handler lists of 1..4 stub/real handlers with every accept/reject pattern; plus runs while the process entropy source (crypto/rand.Reader) answers in pieces of 1, 7, 32, 63 bytes or fails (the challenge is still 64 fresh bytes, resp. nobody is authenticated). Oracle from the wire log alone: a signer call or an add-identity frame requires that this run's sign request named a registered key and was answered with a signature that the harness itself verifies over exactly the challenge sent, and policy NONS without hard key. distinct_nontrivial = distinct (behaviour, directory state, policy, hard-key, key type, outcome) combinations + distinct handler-list patterns")
 		r.Assume("x/crypto/ssh signature verification is the reference for 'valid signature'", "login names contain no path separator", "unpredictability is observed as length >= 32, distinctness over the whole run, per-bit balance within 6 sigma (and getrandom provenance under strace in the thorough tier)")
 		gen.Pool()
 		mon := &chalMon{seen: map[[32]byte]bool{}}
@@ -183,7 +183,7 @@ func sequence(r *ev.Run, c *ev.Case, seqNo int, mon *chalMon) {
 		logName := gsrig.LogName(rng)
 		rec := runRec{Behaviour: beh, Dir: dir, KeyType: user.Name, LogName: logName}
 		// directory
-		for _, f := range []string{logName, logName + ".pub", logName + ".doe", logName + ".pub.bak", logName + "-2.pub"} {
+		for _, f := range []string{logName, logName + ".pub", logName + ".doe", logName + ".pub.bak", logName + "-2.pub", "zz-target-" + logName} {
 			kd.Delete(f)
 		}
 		registered := map[string]ssh.PublicKey{}
@@ -221,6 +221,18 @@ func sequence(r *ev.Run, c *ev.Case, seqNo int, mon *chalMon) {
 		case "right-key-other-name":
 			kd.Write(logName+"x.pub", line(user))
 			kd.Write("x"+logName, line(user))
+		case "pub-is-directory":
+			os.Mkdir(filepath.Join(kd.Path, logName+".pub"), 0o700)
+		case "symlink-to-key":
+			kd.Write("zz-target-"+logName, line(user))
+			os.Symlink(filepath.Join(kd.Path, "zz-target-"+logName), filepath.Join(kd.Path, logName+".pub"))
+			registered[string(user.Pub.Marshal())] = user.Pub
+		case "dangling-symlink":
+			os.Symlink(filepath.Join(kd.Path, "zz-no-such-file"), filepath.Join(kd.Path, logName+".pub"))
+		case "dangling-symlink-and-bare":
+			os.Symlink(filepath.Join(kd.Path, "zz-no-such-file"), filepath.Join(kd.Path, logName+".pub"))
+			kd.Write(logName, line(user))
+			registered[string(user.Pub.Marshal())] = user.Pub
 		case "certificate":
 			// the registered file holds an OpenSSH certificate over the user's key: what is registered is that
 			// certificate, and possession is possession of the key it certifies — not of the key that issued it
